@@ -127,6 +127,7 @@ typedef struct {
     obuf log; obuf errs;
     int first;
     cif_loop_tp *cur_loop;  /* walking: the loop whose packets are being presented */
+    int skip_loops;         /* parsing: every loop_start answers SKIP_CURRENT */
     int setcat, nloops;     /* parsing: loop_start assigns the category c<k> to the k-th loop (the use shown in misc/parser_callbacks.c) */
     int nest_at, nest_buf;  /* parsing: at handler callback #nest_at a complete, independent cif_parse of buffer nest_buf is made */
     long ws_total, ws_bad, ws_events; size_t doc_units;   /* syn=2: whitespace callbacks are validated and summed instead of logged */
@@ -224,6 +225,7 @@ static int h_loop_start(cif_loop_tp *l, void *d) {
     }
     if (c->log_handlers) log_loop(c, "loop_start", l);
     probe_iterate(c, "loop_start", l);
+    if (c->in_parse && c->skip_loops) { (void) respond(c); return CIF_TRAVERSE_SKIP_CURRENT; }
     return respond(c);
 }
 static int h_loop_end(cif_loop_tp *l, void *d) { pctx *c = d; c->cur_loop = NULL; if (c->log_handlers) log_loop(c, "loop_end", l); probe_iterate(c, "loop_end", l); return respond(c); }
@@ -347,6 +349,7 @@ static void cmd_parse(toks *t) {
     if ((v = kv(t, "h")) && atoi(v)) { o->handler = &HANDLER; c.log_handlers = atoi(v) > 0 ? 1 : 0; if (atoi(v) == 2) c.log_handlers = 0; }
     if ((v = kv(t, "syn")) && atoi(v)) { o->whitespace_callback = s_ws; o->keyword_callback = s_kw; o->dataname_callback = s_dn; c.log_syntax = atoi(v); c.doc_units = BUF[bi].n; }
     if ((v = kv(t, "setcat"))) c.setcat = atoi(v);
+    if ((v = kv(t, "skiploops"))) { c.skip_loops = atoi(v); if (!o->handler) o->handler = &HANDLER; }
     c.nest_buf = -1;
     if ((v = kv(t, "nest"))) { const char *q = strchr(v, ':'); c.nest_at = atoi(v); c.nest_buf = q ? slot(q + 1, 'B', NBUF) : -1; if (!o->handler) o->handler = &HANDLER; }
     parse_prog(kv(t, "prog"), &c);
